@@ -16,6 +16,7 @@ import JsonV.Lemmas.QuoteWf
 import JsonV.Lemmas.QuoteCanon
 import JsonV.Lemmas.QuoteRaw
 import JsonV.Lemmas.GlueQuote
+import JsonV.Lemmas.QuoteSpan
 import JsonV.Gen.Lits
 
 namespace JsonV.Props.C11
@@ -65,6 +66,13 @@ theorem needEscape_sound (s : Bytes) (h : needEscape s = false) (f : QFlags) :
   simp [appendQuote, quoteLoop_of_not_needEscape f.html f.js s h]
 
 example : needEscape [0x61, 0x2f, 0x7f, 0xC3, 0xA9] = false := by decide +kernel
+
+/-! ### The copy-span bookkeeping of the Go loop -/
+
+/-- AppendQuote written literally with the Go indices `i`/`n` and the lazily flushed `dst` (`appendQuoteIdx`) equals
+the per-character model every other theorem is stated about — on every input and flag set. -/
+theorem quote_copy_span (f : QFlags) (src : Bytes) : appendQuoteIdx f src = appendQuote f src :=
+  JsonV.Lemmas.QuoteSpan.appendQuoteIdx_eq f src
 
 /-! ### Lossless -/
 
